@@ -312,6 +312,7 @@ def r5(ctx):
             "quantity_abs_max": "value.quantity_abs_max", "price_entry_average": "value.price_entry_average", "side": "value.side",
             "instrument": "value.instrument"}
     ctx.check("PositionExited::from(Position)", {k: f.get(k) for k in want} == want, "the closed record carries the position's own figures", got=f, key="fields")
+    common.position_from_trade(ctx)
     # ... and the record is handed out unchanged by the instrument state (what the engine, the audit and the summary see)
     common.instrument_feeds_own(ctx)
     ctx.floor("plumbing", 3, 3)
